@@ -30,6 +30,10 @@ type entry struct {
 	// high (the regular-expression scanners execute ~10^3 counted blocks per input byte, so the
 	// 10^5 floor of the rule is reached at a few hundred bytes already); 0 = no cap of its own
 	quickBytes int
+	// toLimit: in the thorough tier the ladder of this entry point goes up to the documented limits
+	// (10 MiB / 1M tokens); the others stop at 1 MiB (the instrumented binary needs ~1 us per byte and
+	// there are 800 ladders)
+	toLimit bool
 }
 
 // sink keeps results alive so that the compiler cannot drop a call.
@@ -60,7 +64,7 @@ func errClass(err error) string {
 
 func entries() []entry {
 	return []entry{
-		{name: "Tokenize", doc: "tokenizer.Tokenize on a pooled tokenizer",
+		{name: "Tokenize", doc: "tokenizer.Tokenize on a pooled tokenizer", toLimit: true,
 			prepare: func(sql string) (func() string, bool) {
 				in := []byte(sql)
 				return func() string {
@@ -71,7 +75,7 @@ func entries() []entry {
 					return errClass(err)
 				}, true
 			}},
-		{name: "Parse", doc: "gosqlx.Parse",
+		{name: "Parse", doc: "gosqlx.Parse", toLimit: true,
 			prepare: func(sql string) (func() string, bool) {
 				return func() string {
 					t, err := gosqlx.Parse(sql)
